@@ -70,8 +70,13 @@ class _IdleReleaseInternalRunAdapter(BaseInternalRunAdapterDecorator):
                 # Marking the handler idle is best effort: a failed store write
                 # must not take the run's control loop down.
                 logger.exception("Failed to mark run %s idle", self.run_id)
+        else:
+            # Any other published event (step state changes, results, ...) means
+            # the run is doing work again: it is no longer a release candidate.
+            self._runtime._idle_runs.discard(self.run_id)
         await super().write_to_event_stream(event)
         if isinstance(event, WorkflowIdleEvent):
+            self._runtime._idle_runs.add(self.run_id)
             self._runtime._spawn_task(self._runtime._deferred_release(self.run_id))
 
 
@@ -130,6 +135,8 @@ class IdleReleaseDecorator(BaseRuntimeDecorator):
         self._persistence: TickPersistenceDecorator = decorated
         self._reload_lock = KeyedLock()
         self._active_run_ids: set[str] = set()
+        # runs whose last published event was WorkflowIdleEvent (still idle right now)
+        self._idle_runs: set[str] = set()
         self._background_tasks: set[asyncio.Task[None]] = set()
         self.stop_task: asyncio.Task[None] | None = None
         self._idle_timeout = idle_timeout
@@ -187,6 +194,11 @@ class IdleReleaseDecorator(BaseRuntimeDecorator):
                 return
             if run_id not in self._active_run_ids:
                 return
+            if run_id not in self._idle_runs:
+                # became busy again since it was marked idle (e.g. a waiter
+                # timeout or a retry fired): only release a run that is idle now
+                return
+            self._idle_runs.discard(run_id)
             self._active_run_ids.discard(run_id)
             self._abort_inner_run(run_id)
             logger.info(f"Released idle handler [run_id={run_id}] from memory")
